@@ -4,13 +4,15 @@
 # the caches or the evidence files (used to try seeded mutants while other work uses /repo).
 set -u
 REPO_DIR="$1"; shift
-M=/tmp/mh
+M=${TRY_SEED_DIR:-/tmp/mh}
 mkdir -p $M/work $M/out
 rm -f $M/repo; ln -s "$REPO_DIR" $M/repo
 if [ ! -d $M/harness ]; then mkdir -p $M/harness; fi
 rsync -a --delete --exclude 'target*' /verif/harness/ $M/harness/
 sed -i "s#path = \"/repo\"#path = \"$M/repo\"#; s#path = \"/repo/clvm-fuzzing\"#path = \"$M/repo/clvm-fuzzing\"#" $M/harness/Cargo.toml
 cp "$REPO_DIR/Cargo.lock" $M/harness/Cargo.lock
+# cargo decides staleness by mtime: force a rebuild of the crate under test when the scratch repo changes
+find "$REPO_DIR/src" "$REPO_DIR/clvm-fuzzing/src" "$REPO_DIR/wheel/src" -name "*.rs" -exec touch {} + 2>/dev/null
 rc=0
 for p in "$@"; do
   echo "=== $p against $REPO_DIR"
